@@ -219,6 +219,33 @@ def main(argv=None):
                                    "classes": [], "detail": None, "seed": seed, "tier": tier})
             ctx.n_violations += 1
         ctx.monitors["asan_report_scan" if variant == "asan" else "bounds_replay"] += sub.n_cases
+    # contract soak: the repository's own tests with this property's contracts armed (thorough tier)
+    soak = getattr(mod, "SOAK", {}).get(tier)
+    if soak:
+        out = os.path.join(env.VERIF, ".build", f"soak-{prop}-{os.getpid()}.json")
+        e = dict(os.environ)
+        e.update(PV_SOAK_PROP=prop, PV_SOAK_OUT=out, PYTHONPATH=env.VERIF + os.pathsep + env.DEPS + os.pathsep + env.SRC)
+        e.pop("PYLIFE_VERIF", None)
+        try:
+            subprocess.run([env.PY, "-m", "pytest", "-q", "-p", "no:cacheprovider", "-p", "pv.pytest_contracts", "--no-cov"] + list(soak),
+                           cwd=env.REPO, env=e, capture_output=True, text=True, timeout=wd)
+        except subprocess.TimeoutExpired:
+            reasons.append("contract soak timed out")
+        if os.path.exists(out):
+            d = json.load(open(out))
+            os.remove(out)
+            for k, v in d["monitors"].items():
+                ctx.monitors["soak:" + k] += v
+            ctx.extra["contract_soak"] = {"tests": list(soak), "contract_evaluations": int(sum(d["monitors"].values())),
+                                          "contract_failures": int(d["n_violations"]), "not_judged": d["skipped"]}
+            for rec in d["violations"]:
+                rec["monitor"] = "soak:" + rec["monitor"]
+                ctx.violations.append(rec)
+                ctx.n_violations += 1
+            if not d["monitors"]:
+                reasons.append("contract soak evaluated no contract")
+        else:
+            reasons.append("contract soak produced no result file")
     ctx.extra.pop("timed_out_shards", None)
     wall = time.time() - t0
     verdict, lines, reasons = monitor.decide_and_write(mod, ctx, tier, seed, wall, reasons, findings)
